@@ -287,6 +287,32 @@ def rule_s3b(ctx, F):
             ctx.bad("S3", "ts_tree_cursor_goto_descendant:per-level-visibility", "ts_tree_cursor_goto_descendant: " + (why or "anchors not found"), {"function": fn.name})
 
 
+def rule_s5(ctx, F):
+    """A field name inherited through hidden ancestors is only ever replaced by another field name,
+    never reset to none by an inner hidden level that has no field of its own."""
+    for name in ("ts_node_field_name_for_child", "ts_node_field_name_for_named_child"):
+        fn = ctx.need_fn(F, name, "S5")
+        if not fn:
+            continue
+        inh = bind(fn, "inherited_field_name", "NULL")
+        ids = set(fn.ids_named("inherited_field_name"))
+        sts = []
+        for pt, e in fn.points():
+            for n in own_walk(e):
+                if n.get("k") == "assign" and strip(n["l"]).get("k") == "ref" and strip(n["l"])["id"] in ids:
+                    sts.append((pt, n))
+        if not sts:
+            ctx.bad("S5", name + ":inherits-field", "%s no longer carries a field name inherited from hidden ancestors" % name)
+            continue
+        for k, (pt, n) in enumerate(sts):
+            r = strip(n["r"])
+            if r.get("k") == "ref" and r.get("dk") == "local":
+                ctx.gate("S5", fn, [pt], [("inherited field name replaced only by an existing field name (#%d)" % k, r["name"], True)], accept_desc="overwriting the inherited field name")
+            else:
+                ctx.bad("S5", "%s:inherited-overwritten-unconditionally#%d" % (name, k), "%s overwrites the inherited field name with `%s` without testing that it is non-null at %s: a deeper hidden level without a field erases the field of the outer one" % (
+                    name, show(r)[:60], fn.loc(pt)), {"site": fn.loc(pt)})
+
+
 def rule_s4(ctx, F):
     table = [
         ("ts_node__field_name_from_language", "field_map", "structural_child_index", lambda e: e.get("k") == "ret" and strip(e["e"]).get("k") != "null" and not (strip(e["e"]).get("k") == "int")),
@@ -314,6 +340,7 @@ def run(ctx):
         rule_s3(ctx, F)
         rule_s3b(ctx, F)
         rule_s4(ctx, F)
+        rule_s5(ctx, F)
     return ctx.finish(
         "Sibling-agreement (CFG isomorphism under substitution), field-coverage and index-width rules over node.c / tree_cursor.c: byte- and point-range "
         "descendant search are the same algorithm; child/named-child APIs share one implementation; child iterators read aliases and advance the structural "
